@@ -155,7 +155,9 @@ pub fn campaign(prop: &str, runs_per_worker: u64, workers: u32, report: &mut cra
     .env("CARGO_NET_OFFLINE", "true")
     .env("PV_FUZZ_PROP", prop)
     .env("PV_VERIF_ROOT", &root)
-    .args(["+nightly", "fuzz", "run", target, corpus.to_str().unwrap(), "--"])
+    // No sanitizer: pie and pie_graph contain no unsafe code of note, and ASan's leak check reports the panic payloads
+    // of expected (caught) aborts as crashes.
+    .args(["+nightly", "fuzz", "run", "-s", "none", target, corpus.to_str().unwrap(), "--"])
     .arg(format!("-artifact_prefix={}/", artifacts.display()))
     .arg(format!("-runs={}", runs_per_worker))
     .arg(format!("-seed={}", seed))
